@@ -29,13 +29,11 @@ fn do_instr(start: usize, hay: &str, needle: &str) -> Result<i32, RuntimeError> 
     } else if needle.is_empty() {
         Ok(1)
     } else {
-        let mut i: usize = start - 1;
-        while i + needle.len() <= hay.len() {
-            let sub = hay.get(i..(i + needle.len())).unwrap();
-            if sub == needle {
-                return Ok((i as i32) + 1);
+        // positions count characters, not UTF-8 bytes
+        for (index, (byte_index, _)) in hay.char_indices().enumerate() {
+            if index + 1 >= start && hay[byte_index..].starts_with(needle) {
+                return Ok((index as i32) + 1);
             }
-            i += 1;
         }
         Ok(0)
     }
